@@ -716,9 +716,14 @@ def run_c08(pid, tier, rep, deadline_s):
 def run_c05(pid, tier, rep, deadline_s):
     q = tier == 'quick'
     run_gram(pid, tier, rep, deadline_s); cov = dict(rep.coverage)
-    totals, samples, bounds, extra = run_progs(pid, rep, [dict(name='c05d', src='c05_dsl.cpp', args=[6 if q else 8], compilers=['g++'] if q else ['g++', 'clang++'], label='DSL spellings of an explicit rule precedence ([n] before/after >= and >>=, explicit precedences on binary rules, negative value) x inputs<=%d over {2,-,*,space}' % (6 if q else 8))], deadline_s)
+    totals, samples, bounds, extra = run_progs(pid, rep, [objects_spec('rules', q), dict(name='c05d', src='c05_dsl.cpp', args=[6 if q else 8], compilers=['g++'] if q else ['g++', 'clang++'], label='DSL spellings of an explicit rule precedence ([n] before/after >= and >>=, explicit precedences on binary rules, negative value) x inputs<=%d over {2,-,*,space}' % (6 if q else 8))], deadline_s)
     rep.coverage = merge_cov(cov, {'states': totals['cases'], 'transitions': totals['checks'], 'traces_validated_against_impl': totals['cases'], 'samples': samples, 'evaluations': totals['cases'], 'distinct_nontrivial': extra.get('accepted', 0), 'bounds': bounds,
                                    'exhaustive': all(b['completed'] for b in bounds), 'rule': 'Compiled part: one operator grammar written with the explicit rule precedence attached before and after a >= functor and before and after a >>= functor (parsed through context_parse), with the prefix rule at three levels, and with explicit precedences (one negative) on the binary rules; the grouping of every input up to the bound must equal that of an independent precedence-climbing parser built from the declared levels.'})
+
+def objects_spec(part, q):
+    return dict(name='c07o_' + part, src='c07_objects.cpp', args=[4 if q else 6, part], compilers=['g++'] if q else ['g++', 'clang++'],
+                label={'objects': 'parser objects as values: stack / heap / copy / move / vector growth / source destroyed and its storage reused by another parser of the same type, inputs<=%d' % (4 if q else 6),
+                       'rules': 'named rule objects reused by the caller with and without [n]', 'functors': 'one stateful functor object handed as an lvalue to several typed terms'}[part])
 
 def run_c01(pid, tier, rep, deadline_s):
     q = tier == 'quick'
@@ -744,7 +749,7 @@ def run_c09(pid, tier, rep, deadline_s):
 def run_c02(pid, tier, rep, deadline_s):
     q = tier == 'quick'
     run_gram(pid, tier, rep, deadline_s); cov = dict(rep.coverage)
-    totals, samples, bounds, extra = run_progs(pid, rep, [dict(name='c02v', src='c02_values.cpp', args=[4 if q else 6], compilers=['g++'] if q else ['g++', 'clang++'], label='rules without functor (0-3 children of distinct types, initializer_list types), typed term, helper functors, functors returning lvalue references; inputs<=%d over 9 bytes' % (4 if q else 6))], deadline_s)
+    totals, samples, bounds, extra = run_progs(pid, rep, [objects_spec('functors', q), dict(name='c02v', src='c02_values.cpp', args=[4 if q else 6], compilers=['g++'] if q else ['g++', 'clang++'], label='rules without functor (0-3 children of distinct types, initializer_list types), typed term, helper functors, functors returning lvalue references; inputs<=%d over 9 bytes' % (4 if q else 6))], deadline_s)
     rep.coverage = merge_cov(cov, {'states': totals['cases'], 'transitions': totals['checks'], 'traces_validated_against_impl': totals['cases'], 'samples': samples, 'evaluations': totals['cases'], 'distinct_nontrivial': extra.get('accepted', 0), 'bounds': bounds,
                                    'exhaustive': all(b['completed'] for b in bounds), 'rule': 'Compiled part: a grammar whose rules have no functor (left-side value constructed from 0, 1, 2 and 3 right-side values of distinct types), a typed term and helper functors, on every input up to the bound; value and construction order are compared with an independent recursive-descent evaluator.'})
 
@@ -892,4 +897,8 @@ def dispatch(pid, tier, rep, deadline):
         elif pid == 'C12': run_c12(pid, tier, rep, deadline)
         else: return False
         if pid in SCALE_PROPS: run_scale(pid, tier, rep, deadline)
+        if pid in ('C04', 'C07', 'C15'):   # a parser object is a value: copies, moved-to objects, vector elements behave like the original (also after the original is gone)
+            cov = dict(rep.coverage)
+            totals, samples, bounds, extra = run_progs(pid, rep, [objects_spec('objects', tier == 'quick')], deadline)
+            rep.coverage = merge_cov(cov, {'states': totals['cases'], 'transitions': totals['checks'], 'traces_validated_against_impl': totals['cases'], 'bounds': bounds, 'exhaustive': all(b['completed'] for b in bounds)})
         return True
